@@ -295,6 +295,11 @@ func (c *Cache) getSubscription(name string, subscribe bool) (*EventSubscription
 			eventSub.enqueueEvent(subj, payload)
 		})
 		if err != nil {
+			// Release the count taken above, or the event subscription is
+			// never removed from the cache.
+			eventSub.mu.Lock()
+			eventSub.removeCount(1)
+			eventSub.mu.Unlock()
 			return nil, err
 		}
 
